@@ -121,6 +121,19 @@ def spec_timetree():
     ])
 
 
+def spec_shifts():
+    """the increment ("shifts") parameterisation of the node heights held by ONE plain parameter"""
+    n = ["A", "B", "C", "D"]
+    return dict(name="shifts-coalescent", objects=[
+        taxa(n, [0.0, 1.0, 0.5, 2.0]),
+        {"id": "tree", "type": "ReparameterizedTimeTreeModel", "newick": "(((A,B),C),D);", "taxa": "taxa",
+         "shifts": P("shifts", [0.4, 0.6, 1.5])},
+        {"id": "coal", "type": "ConstantCoalescentModel", "tree_model": "tree", "theta": P("theta", [3.0])},
+        {"id": "ctmc", "type": "CTMCScale", "x": P("clock_rate", [0.01]), "tree_model": "tree"},
+        joint("joint", ["coal", "ctmc", "tree"]),
+    ])
+
+
 def spec_skyline():
     n = ["A", "B", "C", "D", "E"]
     return dict(name="timetree-skyline-gmrf", objects=[
@@ -273,7 +286,7 @@ def spec_distributions():
     ])
 
 
-SPECS = [spec_unrooted, spec_timetree, spec_skyline, spec_birthdeath, spec_codon, spec_general, spec_distributions]
+SPECS = [spec_unrooted, spec_timetree, spec_shifts, spec_skyline, spec_birthdeath, spec_codon, spec_general, spec_distributions]
 
 
 # =============================================================================================
